@@ -95,6 +95,9 @@ func ruleReadDiscipline(c *Ctx, r *Report, rule string) {
 		for _, cs := range c.callsOf(fd) {
 			n := cs.Name
 			meth, isReaderMethod := isReaderCall(n)
+			if fn, ok := c.callee(cs.Call).(*types.Func); ok && c.serRoleOf(fn) != "" {
+				n = c.serRoleOf(fn)
+			}
 			if n == "uvarintFromBuf" || n == "valueFromBuf" {
 				// a decoder call is a read whose failure is its error result
 				didx++
@@ -127,8 +130,8 @@ func ruleReadDiscipline(c *Ctx, r *Report, rule string) {
 	unclear := map[token.Pos][]string{}
 	roots := []string{"Prog.Load"}
 	for _, n := range []string{"uvarintFromBuf", "valueFromBuf"} {
-		if _, fd := c.find(n); fd != nil {
-			roots = append(roots, n)
+		if fn, fd := c.serPrim(n); fd != nil {
+			roots = append(roots, qname(fn))
 		}
 	}
 	run := func(root string) {
@@ -222,7 +225,11 @@ func ruleNoEOFTolerance(c *Ctx, r *Report, rule string) {
 	for _, root := range []string{"Prog.Load", "uvarintFromBuf", "valueFromBuf"} {
 		_, fd := c.find(root)
 		if fd == nil {
-			continue
+			var fn *types.Func
+			if fn, fd = c.serPrim(root); fd == nil {
+				continue
+			}
+			root = qname(fn)
 		}
 		fs, _ := c.readFailures(fd)
 		var bad []string
@@ -336,7 +343,7 @@ func ruleRejectsByModel(c *Ctx, r *Report, rule string) (covered map[*ast.FuncDe
 			case *ast.SelectorExpr:
 				fn, _ = c.objOf(n).(*types.Func)
 			}
-			if fn != nil && fn.Pkg() != nil && fn.Pkg().Path() == bclPath && !serPrimitives[funcName(fn)] {
+			if fn != nil && fn.Pkg() != nil && fn.Pkg().Path() == bclPath && c.serRoleOf(fn) == "" {
 				visit(c.funcDecls[fn])
 			}
 			return true
